@@ -209,7 +209,10 @@ func (s *ModelDiscoveryService) discoverConcurrently(ctx context.Context, endpoi
 		workerCount = len(endpoints)
 	}
 
-	eg, ctx := errgroup.WithContext(ctx)
+	// A plain group, not errgroup.WithContext: one endpoint's failure (an unparseable listing, a
+	// refused connection) must not cancel the discovery of the others, whose aborted requests
+	// would then be counted as failures of their own and eventually disable them.
+	var eg errgroup.Group
 	eg.SetLimit(workerCount)
 
 	for _, ep := range endpoints {
